@@ -9,3 +9,23 @@ MUTANTS = [
     dict(id="c07-segs-lt", props=["C07"], file="apdu.py", old="if _max_segments_accepted_encoding[i] <= arg:", new="if _max_segments_accepted_encoding[i] < arg:"),
     dict(id="c07-cack-win-omitted", props=["C07"], file="apdu.py", old="                pdu.put(self.apduSeq)\n                pdu.put(self.apduWin)\n            pdu.put(self.apduService)\n\n        elif (self.apduType == SegmentAckPDU.pduType):", new="                pdu.put(self.apduSeq)\n                pdu.put(self.apduSeq)\n            pdu.put(self.apduService)\n\n        elif (self.apduType == SegmentAckPDU.pduType):"),
 ]
+MUTANTS += [
+    # ---- C08
+    dict(id="c08-swap-dnet-snet-bits", props=["C08"], file="npdu.py", old="dnetPresent = 0x20\n", new="dnetPresent = 0x08\n"),
+    dict(id="c08-prio-mask", props=["C08"], file="npdu.py", old="self.pduNetworkPriority = control & 0x03", new="self.pduNetworkPriority = control & 0x07"),
+    dict(id="c08-slen0-dropped", props=["C08"], file="npdu.py", old="            elif slen == 0:\n                raise DecodingError(\"SADR can't be a remote broadcast\")\n", new=""),
+    dict(id="c08-vendor-threshold", props=["C08"], file="npdu.py", old="if (self.npduNetMessage >= 0x80) and (self.npduNetMessage <= 0xFF):\n                # extract", new="if (self.npduNetMessage > 0x80) and (self.npduNetMessage <= 0xFF):\n                # extract"),
+    dict(id="c08-hop-before-sadr", props=["C08"], file="npdu.py", old="        # extract the source address\n        if snetPresent:", new="        if dnetPresent and snetPresent and False:\n            pass\n        # extract the source address\n        if snetPresent and not (control & 0x40):"),
+    dict(id="c08-irt-portinfo-len", props=["C08"], file="npdu.py", old="            portInfoLen = npdu.get()\n            portInfo = npdu.get_data(portInfoLen)\n            rte = RoutingTableEntry(dnet, portID, portInfo)\n            self.irtaTable.append(rte)", new="            portInfoLen = npdu.get()\n            portInfo = npdu.get_data(portInfoLen & 0x7F)\n            rte = RoutingTableEntry(dnet, portID, portInfo)\n            self.irtaTable.append(rte)"),
+    dict(id="c08-version-check", props=["C08"], file="npdu.py", old="if (self.npduVersion != 0x01):", new="if (self.npduVersion > 0x01):"),
+]
+MUTANTS += [
+    # ---- C09
+    dict(id="c09-bdt-len6", props=["C09"], file="bvll.py", old="        # make sure the length is correct\n        self.bvlciLength = 4 + 10 * len(self.bvlciBDT)", new="        # make sure the length is correct\n        self.bvlciLength = 4 + 6 * len(self.bvlciBDT)"),
+    dict(id="c09-mask-short", props=["C09"], file="bvll.py", old="bvlpdu.put_long( bdte.addrMask )", new="bvlpdu.put_long( bdte.addrMask & 0xFFFFFF00 )"),
+    dict(id="c09-decode-len-lt", props=["C09"], file="bvll.py", old="if (self.bvlciLength != len(pdu.pduData) + 4):\n            raise DecodingError", new="if (self.bvlciLength < len(pdu.pduData) + 4):\n            raise DecodingError"),
+    dict(id="c09-fdt-swap", props=["C09"], file="bvll.py", old="            fdte.fdTTL = bvlpdu.get_short()\n            fdte.fdRemain = bvlpdu.get_short()", new="            fdte.fdRemain = bvlpdu.get_short()\n            fdte.fdTTL = bvlpdu.get_short()"),
+    dict(id="c09-fwd-len-stale", equivalent="ctor already sets the right length; only late assignment differs and then the encoder refuses", props=["C09"], file="bvll.py", old="        # make sure the length is correct\n        self.bvlciLength = 10 + len(self.pduData)", new="        # make sure the length is correct\n        self.bvlciLength = self.bvlciLength or (10 + len(self.pduData))"),
+    dict(id="c09-type-check", props=["C09"], file="bvll.py", old="if self.bvlciType != 0x81:", new="if self.bvlciType < 0x81:"),
+    dict(id="c09-pack-port", props=["C09"], file="pdu.py", old="return (socket.inet_ntoa(addr[0:4]), struct.unpack('!H', addr[4:6])[0])", new="return (socket.inet_ntoa(addr[0:4]), struct.unpack('<H', addr[4:6])[0])"),
+]
